@@ -328,3 +328,137 @@ m("resume-no-pubcomp-removal", "src/client/context.rs",
             }
             RxPacket::Pubrec(pubrec) => {""",
   [("C17", r"RESUME-PAIR:ack=Pubcomp:no-removal")])
+
+# ---- rules added after the second seeding round
+m("encode-once-buffer-reused", "src/client/handle.rs", "packet: buf.split(),", "packet: buf.clone(),",
+  [("C01", r"ENCODE-ONCE:publish")])
+m("enqueue-skipped-when-closed", "src/client/handle.rs",
+  """    pub async fn ping(&mut self) -> Result<(), MqttError> {
+        let (sender, receiver) = oneshot::channel();
+""",
+  """    pub async fn ping(&mut self) -> Result<(), MqttError> {
+        if self.sender.is_closed() {
+            return Ok(());
+        }
+        let (sender, receiver) = oneshot::channel();
+""",
+  [("C15", r"ENQUEUE-ALWAYS:ping")])
+m("legal-arm-value-test", "src/codec/connack.rs",
+  """                    Property::SessionExpiryInterval(val) => {
+                        builder.session_expiry_interval(val);
+                    }""",
+  """                    Property::SessionExpiryInterval(val) => {
+                        if val != SessionExpiryInterval::default() {
+                            builder.session_expiry_interval(val);
+                        }
+                    }""",
+  [("C02", r"LEGAL-ARM:ConnackRx:SessionExpiryInterval"), ("C17", r"LEGAL-ARM:ConnackRx:SessionExpiryInterval")])
+m("varint-zero-tail-rejected", "src/core/base_types.rs",
+  """            val += (byte as u32 & 127) * mult;
+            mult *= 128;
+""",
+  """            if byte == 0 && idx != 0 {
+                return Err(InvalidEncoding.into());
+            }
+
+            val += (byte as u32 & 127) * mult;
+            mult *= 128;
+""",
+  [("C03", r"VARINT-ERR:"), ("C04", r"VARINT-ERR:")])
+m("lm5b-disconnect-count-vs-write", "src/codec/disconnect.rs",
+  """        if self.session_expiry_interval != SessionExpiryInterval::default() {
+            encoder.encode(self.session_expiry_interval);""",
+  """        if self.session_expiry_interval != SessionExpiryInterval::default()
+            && self.session_expiry_interval != SessionExpiryInterval::from(u32::MAX)
+        {
+            encoder.encode(self.session_expiry_interval);""",
+  [("C01", r"LM:DisconnectTx:LM5")])
+m("key-low-byte", "src/client/utils.rs",
+  """        TxPacket::Pubrel(pubrel) => {
+            (PubcompRx::PACKET_ID as usize) << 24 | ((pubrel.packet_identifier.get() as usize) << 8)""",
+  """        TxPacket::Pubrel(pubrel) => {
+            (PubcompRx::PACKET_ID as usize) << 24 | ((pubrel.packet_identifier.get() as u8 as usize) << 8)""",
+  [("C05", r"KEY:tx:no-narrowing-cast")])
+m("unreleased-cleared-by-pubcomp", "src/client/context.rs",
+  """                utils::linear_search_by_key(&session.retrasmit_queue, action_id)
+                    .and_then(|pos| session.retrasmit_queue.remove(pos));
+
+                if let Some((_, sender)) =
+                    utils::linear_search_by_key(&session.awaiting_ack, action_id)
+                        .and_then(|pos| session.awaiting_ack.remove(pos))
+                {
+                    // The caller may have dropped the operation's future: that is not an error.
+                    let _ = sender.send(Ok(rx_packet));
+                }
+            }
+            RxPacket::Pubrec(pubrec) => {""",
+  """                utils::linear_search_by_key(&session.retrasmit_queue, action_id)
+                    .and_then(|pos| session.retrasmit_queue.remove(pos));
+                session.unreleased.retain(|id| (*id as usize) << 8 != action_id & 0xffff00);
+
+                if let Some((_, sender)) =
+                    utils::linear_search_by_key(&session.awaiting_ack, action_id)
+                        .and_then(|pos| session.awaiting_ack.remove(pos))
+                {
+                    // The caller may have dropped the operation's future: that is not an error.
+                    let _ = sender.send(Ok(rx_packet));
+                }
+            }
+            RxPacket::Pubrec(pubrec) => {""",
+  [("C09", r"Q2DEDUP:release-in:Pubcomp")])
+m("stream-closed-explicitly", "src/client/rsp.rs",
+  """    pub fn stream(self) -> SubscribeStream {
+        SubscribeStream {
+            receiver: self.receiver,
+        }""",
+  """    pub fn stream(mut self) -> SubscribeStream {
+        if self.payload().iter().all(|reason| *reason as u8 >= 0x80) {
+            self.receiver.close();
+        }
+        SubscribeStream {
+            receiver: self.receiver,
+        }""",
+  [("C07", r"OWN:no-explicit-close"), ("C14", r"OWN:no-explicit-close")])
+m("sub-id-folded", "src/client/opts.rs",
+  """            VarSizeInt::try_from(val)
+                .and_then(NonZero::try_from)
+                .map(SubscriptionIdentifier::from)""",
+  """            VarSizeInt::try_from(val % 16383 + 1)
+                .and_then(NonZero::try_from)
+                .map(SubscriptionIdentifier::from)""",
+  [("C11", r"IDALLOC:SubscribeOpts::subscription_identifier:setter-preserves-value")])
+m("pubrel-skipped-no-subscribers", "src/client/handle.rs",
+  """                let (pubrel_sender, pubrel_receiver) = oneshot::channel();
+""",
+  """                if pubrec.reason as u8 == 0x10 {
+                    return Ok(());
+                }
+
+                let (pubrel_sender, pubrel_receiver) = oneshot::channel();
+""",
+  [("C10", r"HANDSHAKE-QOS2:pubrel-always"), ("C06", r"HANDSHAKE-QOS2:pubrel-always")])
+m("stop-depends-on-caller", "src/client/context.rs",
+  """                let _ = msg.response_channel.send(Ok(()));
+
+                if packet_id == DisconnectTx::PACKET_ID {""",
+  """                let delivered = msg.response_channel.send(Ok(())).is_ok();
+
+                if packet_id == DisconnectTx::PACKET_ID && delivered {""",
+  [("C13", r"EXITS-OK:handle_message:disconnect-alone-decides")])
+m("adapter-skips-dup", "src/client/stream.rs",
+  """                if let Some(RxPacket::Publish(publish)) = rx_packet {
+""",
+  """                if let Some(RxPacket::Publish(publish)) = rx_packet {
+                    if publish.dup && publish.retain {
+                        return self.poll_next(cx);
+                    }
+""",
+  [("C09", r"ADAPTER:inner=Ready/Some/Publish"), ("C07", r"ADAPTER:inner=Ready/Some/Publish")])
+m("lookup-stops-early", "src/client/utils.rs",
+  """    K: Copy + PartialEq,
+{
+    deque.iter().position(|(k, _)| *k == key)""",
+  """    K: Copy + PartialEq,
+{
+    deque.iter().take(64).position(|(k, _)| *k == key)""",
+  [("C05", r"LOOKUP:linear_search_by_key")])
